@@ -6,7 +6,7 @@ THEOREMS = ['FlexVerif.validate_sound', 'FlexVerif.Buf.run_from_init', 'FlexVeri
 
 def run(ctx):
     q1, q2, q3 = {'quick': (64, 48, 32), 'thorough': (600, 400, 200)}[ctx.tier]
-    plan = [('buffers', q1, 6), ('include', q2, 6), ('ops', q2, 6), ('unput', q3, 6), ('reject', q3, 6), ('eof', q3, 6), ('lineno', q3, 4), ('deepstack', q3, 4), ('bufreq', q3, 6)]
+    plan = [('buffers', q1, 6), ('include', q2, 6), ('ops', q2, 6), ('unput', q3, 6), ('reject', q3, 6), ('eof', q3, 6), ('lineno', q3, 4), ('deepstack', q3, 4), ('bufreq', q3, 6), ('arraymore', q3, 6)]
     return rtprop.run(ctx, THEOREMS, plan, 'exploration',
                       "memory safety and release: every runtime case runs on a scanner built with -fsanitize=address,undefined -fno-sanitize-recover (any report is a violation); with the ledger allocator (noyyalloc/noyyrealloc/noyyfree; realloc always moves and poisons) every pointer freed/reallocated must come from the ledger and, after the user's buffers are deleted and yylex_destroy() called, nothing may stay live; a destroyed scanner is reused and destroyed again; emitted tables are bounds-checked for all inputs by the validator's decoders (DState.bad); Buf.run_from_init / refill_spec: in the buffer machine the buffer never holds more than yy_buf_size characters (Inv.fits), and that machine's read requests are compared with the real scanner's (bufreq family)" + '. Kernel-checked theorems about the abstract scanner (listed under obligations) + differential '
                       'correspondence of the real generated scanner (ASan/UBSan build) with that model on generated cases.')
